@@ -98,22 +98,23 @@ STATELESS_TECH = "; flow-insensitive alias/effect analysis on the syntax trees w
 STATELESS_TEXT = " Also decides that the library keeps no state between calls (STATELESS), which every statement 'for all histories of calls' depends on."
 LIB = {"C01", "C02", "C03", "C04", "C05", "C06", "C07", "C08", "C09", "C10", "C11", "C12", "C16", "C17", "C18", "C19"}
 ADD = {
- "C01": ("; who-may-call rule on (*pars.State).Dump (REQ-BUF)", " Look-ahead in the parsers never goes through State.Dump, whose answer depends on where the reader's 4096-byte reads end (REQ-BUF)."),
- "C02": ("; NO-REORDER data-flow rule on the filled part slices", " The filled parts reach Join/Order unpermuted (NO-REORDER)."),
- "C03": ("; who-may-call and kind-preservation rules on asComplete, NORMALISE-FIRST (a canonicalised parameter is not read by an earlier statement), SLICE-REGION must-pass rule on go/cfg", " Only slicing strips partial markers and it keeps the kind of the location (COMPLETE-ONLY-SLICE, KIND-PRESERVE); nothing reads start/end before they are counted from the end (NORMALISE-FIRST); GenBankFields.Slice records the window on every path (SLICE-REGION)."),
- "C04": ("; NO-REORDER data-flow rule; NORMALISE-FIRST", " The normalised parts reach Join/Order in the order they were filled (NO-REORDER); the rotation amount is not read before it is reduced (NORMALISE-FIRST)."),
- "C05": ("; NO-REORDER", " The mirrored parts reach the constructor unpermuted (NO-REORDER)."),
- "C06": ("; PRINT-TOTAL shape rule on Ranged.String", " Ranged.String writes start, `..` and end on every path, the markers under their own flags (PRINT-TOTAL)."),
- "C07": ("; OVERFLOW side condition of the non-negativity analysis (boundedness of input numbers in size arithmetic); ORIGIN-LINE-END / ORIGIN-END path rules; REQ-BUF", " Size arithmetic on numbers read from the input is dominated by an upper-bound guard (OVERFLOW; a LOCUS length near 2^63 panicked: repaired); a record with more residues than its LOCUS line declares is an error on the fast and the slow path (ORIGIN-LINE-END, ORIGIN-END; it was read short: repaired); no look-ahead through State.Dump (REQ-BUF). The clause 'inconsistent LOCUS/ORIGIN lengths are rejected' is now decided structurally in both directions."),
- "C08": ("; DEDUP-EXACT", " gts extract drops a region only when it equals an earlier one in full (DEDUP-EXACT)."),
- "C10": ("; who-may-call rule on asComplete; NORMALISE-FIRST", " No edit other than slicing clears partial markers (COMPLETE-ONLY-SLICE)."),
+ "C01": ("; who-may-call rule on (*pars.State).Dump (REQ-BUF); WRAP-JOIN / QUAL-FORMAT writer-reader agreement rules; MAP-INIT", " Look-ahead in the parsers never goes through State.Dump, whose answer depends on where the reader's 4096-byte reads end (REQ-BUF). A value the writer wraps at blanks is joined with a blank by the reader, and one the reader keeps as a single line is written on one line (WRAP-JOIN; SOURCE and ORGANISM did not round-trip when longer than a line: repaired); the value-less qualifier form is written for toggle qualifiers only (QUAL-FORMAT)."),
+ "C02": ("; NO-REORDER data-flow rule on the filled part slices; EDIT-CHAIN on gts insert/infix; IDENTITY-RETURN / KIND-SET tables over the coordinate methods", " The filled parts reach Join/Order unpermuted (NO-REORDER). The commands where the property is observed start every record from the scanned host (EDIT-CHAIN); a coordinate method returns its receiver only when n == 0 and builds results with the reviewed constructors only (IDENTITY-RETURN, KIND-SET)."),
+ "C03": ("; who-may-call and kind-preservation rules on asComplete, NORMALISE-FIRST (a canonicalised parameter is not read by an earlier statement), SLICE-REGION must-pass rule on go/cfg; IDENTITY-RETURN / KIND-SET", " Only slicing strips partial markers and it keeps the kind of the location (COMPLETE-ONLY-SLICE, KIND-PRESERVE); nothing reads start/end before they are counted from the end (NORMALISE-FIRST); GenBankFields.Slice records the window on every path (SLICE-REGION). Expand returns its receiver only for n == 0 and builds only between-sites and ranges (IDENTITY-RETURN, KIND-SET)."),
+ "C04": ("; NO-REORDER data-flow rule; NORMALISE-FIRST; IDENTITY-RETURN / KIND-SET; FMAP uniformity follows values derived from the element", " The normalised parts reach Join/Order in the order they were filled (NO-REORDER); the rotation amount is not read before it is reduced (NORMALISE-FIRST). Normalize is applied to every feature, not under a test computed from the feature (FMAP); Normalize never hands back its receiver (IDENTITY-RETURN)."),
+ "C05": ("; NO-REORDER; CONCAT-OFFSET; IDENTITY-RETURN / KIND-SET", " The mirrored parts reach the constructor unpermuted (NO-REORDER). Reverse of a contiguous kind always recomputes, also for a whole-sequence range whose markers must swap (IDENTITY-RETURN); Locate's concatenation offsets later pieces by the residues accumulated so far (CONCAT-OFFSET)."),
+ "C06": ("; PRINT-TOTAL shape rule on Ranged.String; PARSE-REJECT", " Ranged.String writes start, `..` and end on every path, the markers under their own flags (PRINT-TOTAL). The hand-written parsers reject nothing the printers can print: value-dependent rejections exist only in parseBetween (PARSE-REJECT)."),
+ "C07": ("; OVERFLOW side condition of the non-negativity analysis (boundedness of input numbers in size arithmetic); ORIGIN-LINE-END / ORIGIN-END path rules; REQ-BUF; MAP-INIT (dominating initialisation of map-typed fields)", " Size arithmetic on numbers read from the input is dominated by an upper-bound guard (OVERFLOW; a LOCUS length near 2^63 panicked: repaired); a record with more residues than its LOCUS line declares is an error on the fast and the slow path (ORIGIN-LINE-END, ORIGIN-END; it was read short: repaired); no look-ahead through State.Dump (REQ-BUF). The clause 'inconsistent LOCUS/ORIGIN lengths are rejected' is now decided structurally in both directions. No element store into a map-typed record field that may still be nil (MAP-INIT)."),
+ "C08": ("; DEDUP-EXACT; CONCAT-OFFSET; NO-EARLY-EXIT on Regions.Resize", " gts extract drops a region only when it equals an earlier one in full (DEDUP-EXACT). Regions.Resize has no exit before the offset walks (NO-EARLY-EXIT)."),
+ "C10": ("; who-may-call rule on asComplete; NORMALISE-FIRST; IDENTITY-RETURN / KIND-SET", " No edit other than slicing clears partial markers (COMPLETE-ONLY-SLICE)."),
  "C11": ("; SHALLOW-CACHE on the reviewed mutator (*Origin).Bytes", " The reviewed exception is narrowed: (*Origin).Bytes may rebind its receiver's fields but not store into the block they reference (SHALLOW-CACHE)."),
- "C12": ("; UNIQUE-CUTS and EMIT-ALL on gts split", " gts split cuts at distinct positions and writes every piece (UNIQUE-CUTS, EMIT-ALL), without which split | join | repair cannot restore the table."),
- "C14": ("; KEY-9 provenance of everything fed to the digest of a secondary input; KEY-10 path-sensitive typestate of the input descriptor in TryCache", " The digest of a secondary input is taken over the input as given, not over values parsed from it (KEY-9); the inherited standard input is never hashed in place (KEY-10)."),
- "C15": ("; STALE-VALUE (path-sensitive def-use staleness on go/cfg), EMIT-ALL, UNIQUE-CUTS", " No number/boolean computed from a variable is read after that variable was re-assigned (STALE-VALUE); a loop that writes one record per site writes one for every site, extract's documented filter being evaluated on the list it emits (EMIT-ALL); split cuts at distinct positions (UNIQUE-CUTS)."),
- "C16": ("; exhaustive evaluation of the residue predicate over all 256 bytes (RESIDUE-CLASS); SHALLOW-CACHE; ORIGIN-LINE-END", " Both readers accept every printable residue byte and none of the layout bytes (RESIDUE-CLASS, all 256 values); decoding never writes into the shared block (SHALLOW-CACHE); the slow path tests the rest of each line as the fast path does (ORIGIN-LINE-END; repaired)."),
+ "C12": ("; UNIQUE-CUTS and EMIT-ALL on gts split; KIND-SET, NO-EARLY-EXIT on Repair, FLUSH-ALL", " gts split cuts at distinct positions and writes every piece (UNIQUE-CUTS, EMIT-ALL), without which split | join | repair cannot restore the table. Repair has no shortcut exit before its grouping pass (NO-EARLY-EXIT); a fragment of one residue stays a (partial) range (KIND-SET); split/repair flush what they write (FLUSH-ALL)."),
+ "C13": ("; KEY-5 of TryCache (the root digest is the digest of the rewound input)", " The key an entry is stored and looked up under is the digest of the input the command reads: TryCache hashes the rewound spool (KEY-5, also part of C14)."),
+ "C14": ("; KEY-9 provenance of everything fed to the digest of a secondary input; KEY-10 path-sensitive typestate of the input descriptor in TryCache; KEY-11 (errors of the cache machinery never become TryCache's error)", " The digest of a secondary input is taken over the input as given, not over values parsed from it (KEY-9); the inherited standard input is never hashed in place (KEY-10). A failure of the cache machinery degrades to an uncached run (KEY-11)."),
+ "C15": ("; STALE-VALUE (path-sensitive def-use staleness on go/cfg), EMIT-ALL, UNIQUE-CUTS; CONCAT-OFFSET; FLUSH-ALL (must-pass on go/cfg)", " No number/boolean computed from a variable is read after that variable was re-assigned (STALE-VALUE); a loop that writes one record per site writes one for every site, extract's documented filter being evaluated on the list it emits (EMIT-ALL); split cuts at distinct positions (UNIQUE-CUTS). Every record written is flushed before a successful return (FLUSH-ALL); extract's concatenation of multi-segment regions offsets features correctly (CONCAT-OFFSET)."),
+ "C16": ("; exhaustive evaluation of the residue predicate over all 256 bytes (RESIDUE-CLASS); SHALLOW-CACHE; ORIGIN-LINE-END; INDEX-EXACT", " Both readers accept every printable residue byte and none of the layout bytes (RESIDUE-CLASS, all 256 values); decoding never writes into the shared block (SHALLOW-CACHE); the slow path tests the rest of each line as the fast path does (ORIGIN-LINE-END; repaired). Both readers compare the index columns byte for byte with the writer's text (INDEX-EXACT)."),
  "C17": ("; SLICE-REGION must-pass rule; SHALLOW-CACHE", " A slice records its window on every path, which the FASTA description is built from (SLICE-REGION)."),
- "C19": ("; QUANT-ALL quantifier-shape rule on LocationWithin/LocationOverlap; VALUES-ONLY provenance rule on the matched strings; NOT-OF-OR on gts select", " Within is the conjunction and Overlap the disjunction of the same test over every part (QUANT-ALL); a qualifier clause is matched against values only (VALUES-ONLY; the unnamed clause also matched qualifier names: repaired); gts select -v complements the disjunction of all selectors (NOT-OF-OR)."),
+ "C19": ("; QUANT-ALL quantifier-shape rule on LocationWithin/LocationOverlap; VALUES-ONLY provenance rule on the matched strings; NOT-OF-OR on gts select; LESS-UNWRAP", " Within is the conjunction and Overlap the disjunction of the same test over every part (QUANT-ALL); a qualifier clause is matched against values only (VALUES-ONLY; the unnamed clause also matched qualifier names: repaired); gts select -v complements the disjunction of all selectors (NOT-OF-OR). The function that orders the parts of a multi-part location unwraps complement itself (LESS-UNWRAP)."),
 }
 
 NOT_APPLICABLE = {
